@@ -1855,6 +1855,15 @@ fn run_real_inner(id: u16, direct: bool) -> Vec<Violation> {
                     targets.push((format!("file mode {mode:o}"), f));
                 }
             }
+            // Time stamps before 1970 (negative seconds with a positive fraction) and far in the future.
+            for (i, (sec, nsec)) in [(-11i64, 750_000_000i64), (-1, 0), (-1, 999_999_999), (0, 1), (4_102_444_800, 5)].into_iter().enumerate() {
+                let p = fx.file(&format!("t{i}"), &content(3));
+                let c = std::ffi::CString::new(p.as_os_str().as_encoded_bytes()).unwrap();
+                let ts = [libc::timespec { tv_sec: sec + 5, tv_nsec: nsec }, libc::timespec { tv_sec: sec, tv_nsec: nsec }];
+                if unsafe { libc::utimensat(libc::AT_FDCWD, c.as_ptr(), ts.as_ptr(), 0) } == 0 {
+                    targets.push((format!("file modified at {sec}s+{nsec}ns"), std::fs::File::open(&p).unwrap()));
+                }
+            }
             targets.push(("directory".into(), std::fs::File::open(&fx.dir).unwrap()));
             targets.push(("character device".into(), std::fs::File::open("/dev/null").unwrap()));
             {
@@ -1906,8 +1915,12 @@ fn run_real_inner(id: u16, direct: bool) -> Vec<Violation> {
                 for (got, bit) in bits {
                     chk(&format!("permission bit {bit:o}"), got.to_string(), (mode & bit != 0).to_string());
                 }
-                chk("modified", format!("{:?}", m.modified()), format!("{:?}", sm.modified().unwrap()));
-                chk("accessed", format!("{:?}", m.accessed()), format!("{:?}", sm.accessed().unwrap()));
+                let guarded = |f: &dyn Fn() -> std::time::SystemTime| match std::panic::catch_unwind(std::panic::AssertUnwindSafe(f)) {
+                    Ok(t) => format!("{t:?}"),
+                    Err(_) => format!("panic: {}", crate::seqx::take_panic()),
+                };
+                chk("modified", guarded(&|| m.modified()), format!("{:?}", sm.modified().unwrap()));
+                chk("accessed", guarded(&|| m.accessed()), format!("{:?}", sm.accessed().unwrap()));
                 if let Ok(c) = sm.created() {
                     chk("created", format!("{:?}", m.created()), format!("{c:?}"));
                 }
